@@ -161,6 +161,11 @@ class Ctx:
         return r
 
     def _assumed(self, t, _d=0):
+        if self.assumptions and t[0] == "phi" and _d < 3:
+            # `a && b` as a value (`let ok = !xs.is_empty() && xs.iter().position(..).is_some();`): false | b
+            vs_ = [self._assumed(a_, _d + 1) for a_ in t[1]]
+            if vs_ and all(v_[0] == "const" and v_[1] == "bool" for v_ in vs_) and len(set(v_[2] for v_ in vs_)) == 1:
+                return vs_[0]
         if self.assumptions and t[0] == "payload":
             # `helper(..)?` where the helper answers Ok(bool): evaluate it in this world
             c0 = t[1][1] if t[1][0] == "trybranch" else t[1]
